@@ -38,6 +38,12 @@ def run():
     expect("corrupted matrix entry rejected by C05_Diffusion and C06_DiffConst",
            {"C05_Diffusion", "C06_DiffConst"} <= set(by[1]["failing"]), str(by[1]["failing"]))
     expect("corrupted ghost value rejected by C03_Robin", "C03_Robin" in by[2]["failing"], str(by[2]["failing"]))
+    # cell indices such as (1, 0) in matrix entries are not `unliftable' markers; a marked value is
+    has_10 = any(e[0] == [1, 0] or e[1] == [1, 0] for e in good["obs"]["Mdiff"])
+    expect("a cell index (1, 0) is not mistaken for the unliftable marker",
+           has_10 and "Mdiff" not in opscheck.outputs_with_unknown(good["obs"]), str(has_10))
+    marked = copy.deepcopy(good); marked["obs"]["Mdiff"][0][2] = [1, 0]
+    expect("an unliftable matrix value is reported as such", "Mdiff" in opscheck.outputs_with_unknown(marked["obs"]))
 
     # 2. lifecycle layer: recorded trace of a real program; drop one hook event / flip one logged field
     here = os.path.dirname(os.path.abspath(__file__))
